@@ -50,6 +50,7 @@ Definition dec_op (t : tree) : option cop :=
   match t with
   | L [A 16; n] => olet n := tN n in Some (PushManyClaimed n)
   | L [A 17; l] => olet l := tlist tZ l in Some (Op (OTryExtend l))   (* try_extend_from_slice *)
+  | L [A 19; l; _] => olet l := tlist tZ l in Some (Op (OTryExtend l))  (* a loose upper size hint: what counts is what it yields *)
   | L [A 18; l1; l2] => olet l1 := tlist tZ l1 in olet l2 := tlist tZ l2 in Some (TryExtendResuming l1 l2)
   | _ => olet o := dec_op0 t in Some (Op o)
   end.
